@@ -143,6 +143,41 @@ func buildASTIndex(p *load.Program) *astIndex {
 	return ai
 }
 
+// bracketKeyAt maps a file:line:col inside an index or slice expression to the
+// position key of that expression's opening bracket (innermost expression).
+func (ai *astIndex) bracketKeyAt(p *load.Program, file string, line, col int) string {
+	best := ""
+	bestSpan := -1
+	for lb, n := range ai.byPos {
+		var start, end token.Pos
+		switch x := n.(type) {
+		case *ast.IndexExpr:
+			start, end = x.Pos(), x.End()
+		case *ast.SliceExpr:
+			start, end = x.Pos(), x.End()
+		default:
+			continue
+		}
+		ps, pe := p.Fset.Position(start), p.Fset.Position(end)
+		f := strings.TrimPrefix(ps.Filename, p.Dir+"/")
+		if f != file || ps.Line > line || pe.Line < line {
+			continue
+		}
+		if ps.Line == line && ps.Column > col {
+			continue
+		}
+		if pe.Line == line && pe.Column < col {
+			continue
+		}
+		span := int(end - start)
+		if bestSpan < 0 || span < bestSpan {
+			bestSpan = span
+			best = posKeyOf(p, lb)
+		}
+	}
+	return best
+}
+
 func (ai *astIndex) render(pos token.Pos, fallback string) string {
 	if n, ok := ai.byPos[pos]; ok {
 		if e, ok := n.(ast.Expr); ok {
@@ -172,7 +207,7 @@ func runC07(c *Ctx) {
 		"No Manticore code is executed."
 	r.Assumptions = []string{
 		"go/parser, go/types and the go/ssa builder of x/tools v0.50.0 are faithful to the source",
-		"go1.26.8 compiler prove pass: an index/slice site not listed by -d=ssa/check_bce/debug=1 is in bounds on every execution",
+		"go1.26.8 compiler prove pass: an index/slice site that is neither listed by -d=ssa/check_bce/debug=1 (check remains) nor reported as `Disproved Is(Slice)InBounds` by -d=ssa/prove/debug=1 (check proved to always fail) is in bounds on every execution",
 		"len(x) <= 2^48 for every slice/string (amd64 address space); int is 64 bits",
 		"type-based aliasing for struct fields (no unsafe aliasing; checked: unsafe appears only in crypto/rc4)",
 		"io.Reader/ReadFromUDP contract 0 <= n <= len(buf) on success; the listed standard-library callees (StdTotal) do not panic on any argument",
@@ -206,11 +241,22 @@ func runC07(c *Ctx) {
 		return
 	}
 	resAt := map[string]string{}
+	ai := buildASTIndex(p)
+	nDisproved := 0
 	for _, x := range res {
+		if strings.HasPrefix(x.Kind, "Disproved") {
+			// reported at the index operand: map to the enclosing index/slice expression's bracket
+			if k := ai.bracketKeyAt(p, x.File, x.Line, x.Col); k != "" {
+				resAt[k] = x.Kind
+				nDisproved++
+			}
+			resAt[fmt.Sprintf("%s:%d:%d", x.File, x.Line, x.Col)] = x.Kind
+			continue
+		}
 		resAt[fmt.Sprintf("%s:%d:%d", x.File, x.Line, x.Col)] = x.Kind
 	}
 	r.Extra["compiler_residual_sites_module"] = len(res)
-	ai := buildASTIndex(p)
+	r.Extra["compiler_disproved_sites_module"] = nDisproved
 
 	nSites, nResidual, nCompiler := 0, 0, 0
 	usedRes := map[string]bool{}
